@@ -28,7 +28,7 @@ pub fn def() -> PropDef {
                overflowing the type / 40 digits, DIMACS literal or group beyond the declared count, variable count \
                above the type's maximum, AIGER literal above 2M+1, odd or zero defined literal, symbol index \
                beyond its section, fused tokens, invalid UTF-8 inside a symbol name, unknown or misspelt BTOR2 \
-               keyword, zero node id), parsed one-shot and under a generated feed: the error's line must be the \
+               keyword, zero node id, multi-byte binary AIGER delta code above its reference code), parsed one-shot and under a generated feed: the error's line must be the \
                token's line and its column must lie on the corrupted token; one case in four is repeated behind a 1..23-byte \
                preamble that the caller consumes before LineReader::new (line 1 starts at the current position). Part C \
                (LineReader used directly): a hand-written word scanner over generated lines (words of 1..3000 bytes, so \
@@ -190,7 +190,7 @@ pub fn check_bounds(c: &BoundsCase, obs: &mut Obs) -> CheckResult {
 // ---------------------------------------------------------------------------------------------
 // Part B
 
-pub const CORRUPTIONS: [&str; 15] = [
+pub const CORRUPTIONS: [&str; 16] = [
     "garbage-token",
     "digits-then-garbage",
     "overflow-40-digits",
@@ -206,6 +206,7 @@ pub const CORRUPTIONS: [&str; 15] = [
     "btor2-unknown-keyword",
     "btor2-zero-id",
     "aiger-latch-init-invalid",
+    "aiger-binary-delta-too-large",
 ];
 
 #[derive(Serialize, Deserialize, Clone, Debug, PartialEq, Eq, Hash)]
@@ -506,6 +507,32 @@ fn corrupt(c: &ExactCase) -> Option<Corrupted> {
                 }
             };
             Some(replace(bytes, t, &with))
+        }
+        "aiger-binary-delta-too-large" => {
+            // a delta code of several bytes whose value exceeds every reference code of the file;
+            // the and-gate section has no line structure: one line, columns count bytes
+            let Doc::Aiger(d) = &c.doc else { return None };
+            if !d.binary || limit == usize::MAX || d.aig.max_var_index >= 1 << 38 {
+                return None;
+            }
+            let deltas: Vec<&Tok> = r.toks.iter().filter(|t| t.role == Role::Delta).collect();
+            let t = pick_tok(&deltas, c.pick)?;
+            let mut v: u64 = (1 << 40) + c.arg as u64;
+            let mut code = vec![];
+            loop {
+                let b = (v & 0x7f) as u8;
+                v >>= 7;
+                if v == 0 {
+                    code.push(b);
+                    break;
+                }
+                code.push(b | 0x80);
+            }
+            let mut k = replace(bytes, t, &code);
+            k.line = bytes[..limit].iter().filter(|&&b| b == b'\n').count() + 1;
+            k.col_lo = t.start - limit + 1;
+            k.col_hi = k.col_lo + code.len() - 1;
+            Some(k)
         }
         "aiger-latch-init-invalid" => {
             // an in-range initialisation literal that is neither 0, 1 nor the latch itself
